@@ -1,8 +1,557 @@
 package main
 
-// tryReplay turns a solver model into a call of the real function (R3 replays for
-// functions over strings/integers/booleans). Returns the transcript and whether the
-// violation was reproduced on the real code.
-func tryReplay(g *gen, o *Obligation, repo string) (string, bool) {
+import (
+	"bytes"
+	"encoding/json"
+	"fmt"
+	"go/types"
+	"os"
+	"os/exec"
+	"path/filepath"
+	"regexp"
+	"strconv"
+	"strings"
+
+	"golang.org/x/tools/go/ssa"
+)
+
+// R3 replay: turn a solver model into a direct call of the real function (through an
+// in-package test injected with `go test -overlay`, nothing is written into the repository),
+// observe the results, and evaluate the violated clause on (model inputs, observed outputs).
+
+type replayArg struct {
+	goExpr string   // Go expression building the argument
+	setup  []string // statements executed before the call
+	binds  []string // SMT assertions fixing the symbolic input to the concrete value
+}
+
+func basicKind(t types.Type) string {
+	if b, ok := t.Underlying().(*types.Basic); ok {
+		switch {
+		case b.Info()&types.IsString != 0:
+			return "string"
+		case b.Info()&types.IsBoolean != 0:
+			return "bool"
+		case b.Info()&types.IsInteger != 0:
+			return "int"
+		}
+	}
+	return ""
+}
+
+func typeExpr(t types.Type, pkg *types.Package) string {
+	return types.TypeString(t, func(p *types.Package) string {
+		if p == pkg {
+			return ""
+		}
+		return p.Name()
+	})
+}
+
+// getValues asks z3 for the values of the given terms in a model of the script.
+func getValues(script string, terms []string, solver string) (map[string]string, error) {
+	if len(terms) == 0 {
+		return map[string]string{}, nil
+	}
+	s := strings.Replace(script, "(get-model)", "(get-value ("+strings.Join(terms, " ")+"))", 1)
+	dir, err := os.MkdirTemp(scratchRoot(), "govc-replay-")
+	if err != nil {
+		return nil, err
+	}
+	defer os.RemoveAll(dir)
+	f := filepath.Join(dir, "q.smt2")
+	os.WriteFile(f, []byte(s), 0o644)
+	var text string
+	order := []solverSpec{}
+	for _, sp := range solvers {
+		if sp.name == solver {
+			order = append(order, sp)
+		}
+	}
+	for _, sp := range solvers {
+		if sp.name != solver {
+			order = append(order, sp)
+		}
+	}
+	for _, sp := range order {
+		argv := sp.argv(f, 20000)
+		out, _ := exec.Command(argv[0], argv[1:]...).CombinedOutput()
+		text = string(out)
+		if strings.HasPrefix(strings.TrimSpace(text), "sat") {
+			break
+		}
+	}
+	if !strings.HasPrefix(strings.TrimSpace(text), "sat") {
+		return nil, fmt.Errorf("solver did not reproduce the model: %s", firstLine(text))
+	}
+	body := text[strings.Index(text, "\n")+1:]
+	sx, err := parseSexprs(body)
+	if err != nil || len(sx) == 0 {
+		return nil, fmt.Errorf("cannot parse get-value output: %v", err)
+	}
+	res := map[string]string{}
+	for _, pair := range sx[0].list {
+		if len(pair.list) == 2 {
+			res[pair.list[0].String()] = pair.list[1].String()
+		}
+	}
+	return res, nil
+}
+
+func firstLine(s string) string {
+	if i := strings.Index(s, "\n"); i >= 0 {
+		return s[:i]
+	}
+	return s
+}
+
+type sexpr struct {
+	atom string
+	list []*sexpr
+	isL  bool
+}
+
+func (s *sexpr) String() string {
+	if !s.isL {
+		return s.atom
+	}
+	var parts []string
+	for _, x := range s.list {
+		parts = append(parts, x.String())
+	}
+	return "(" + strings.Join(parts, " ") + ")"
+}
+
+func parseSexprs(src string) ([]*sexpr, error) {
+	var out []*sexpr
+	i := 0
+	var parse func() (*sexpr, error)
+	skip := func() {
+		for i < len(src) && (src[i] == ' ' || src[i] == '\n' || src[i] == '\t' || src[i] == '\r') {
+			i++
+		}
+	}
+	parse = func() (*sexpr, error) {
+		skip()
+		if i >= len(src) {
+			return nil, fmt.Errorf("eof")
+		}
+		if src[i] == '(' {
+			i++
+			n := &sexpr{isL: true}
+			for {
+				skip()
+				if i >= len(src) {
+					return nil, fmt.Errorf("unbalanced")
+				}
+				if src[i] == ')' {
+					i++
+					return n, nil
+				}
+				c, err := parse()
+				if err != nil {
+					return nil, err
+				}
+				n.list = append(n.list, c)
+			}
+		}
+		if src[i] == '"' {
+			j := i + 1
+			for j < len(src) {
+				if src[j] == '"' {
+					if j+1 < len(src) && src[j+1] == '"' {
+						j += 2
+						continue
+					}
+					break
+				}
+				j++
+			}
+			a := src[i : j+1]
+			i = j + 1
+			return &sexpr{atom: a}, nil
+		}
+		j := i
+		for j < len(src) && !strings.ContainsRune(" \n\t\r()", rune(src[j])) {
+			j++
+		}
+		a := src[i:j]
+		i = j
+		return &sexpr{atom: a}, nil
+	}
+	for {
+		skip()
+		if i >= len(src) {
+			break
+		}
+		s, err := parse()
+		if err != nil {
+			return out, err
+		}
+		out = append(out, s)
+	}
+	return out, nil
+}
+
+var uEsc = regexp.MustCompile(`\\u\{([0-9a-fA-F]+)\}`)
+
+// smtToGo converts a solver value to a Go literal of the given kind.
+func smtToGo(v, kind string) (string, bool) {
+	switch kind {
+	case "int":
+		v = strings.TrimSpace(v)
+		if strings.HasPrefix(v, "(- ") {
+			return "-" + strings.TrimSuffix(v[3:], ")"), true
+		}
+		if _, err := strconv.ParseInt(v, 10, 64); err == nil {
+			return v, true
+		}
+		return "", false
+	case "bool":
+		return v, v == "true" || v == "false"
+	case "string":
+		if len(v) < 2 || v[0] != '"' {
+			return "", false
+		}
+		s := strings.ReplaceAll(v[1:len(v)-1], `""`, `"`)
+		var bad bool
+		s = uEsc.ReplaceAllStringFunc(s, func(m string) string {
+			h := uEsc.FindStringSubmatch(m)[1]
+			n, err := strconv.ParseInt(h, 16, 32)
+			if err != nil || n > 255 {
+				bad = true
+				return "?"
+			}
+			return string([]byte{byte(n)})
+		})
+		if bad {
+			return "", false
+		}
+		return strconv.Quote(s), true
+	}
 	return "", false
+}
+
+func goToSMT(kind, printed string) string {
+	switch kind {
+	case "int":
+		n, _ := strconv.ParseInt(printed, 10, 64)
+		return intLit(n)
+	case "bool":
+		return printed
+	case "string":
+		s, err := strconv.Unquote(printed)
+		if err != nil {
+			return `""`
+		}
+		return smtString(s)
+	}
+	return "0"
+}
+
+func tryReplay(g *gen, o *Obligation, repo string) (string, bool) {
+	fn := g.fn
+	if fn.Parent() != nil || fn.Pkg == nil {
+		return "", false
+	}
+	pkg := fn.Pkg.Pkg
+	var log bytes.Buffer
+	// 1. which terms do we need from the model?
+	type field struct {
+		name, kind, term string
+	}
+	type param struct {
+		p      *ssa.Parameter
+		kind   string // basic kind, "struct", "ptrstruct"
+		term   string
+		fields []field
+	}
+	var params []param
+	var terms []string
+	for _, p := range fn.Params {
+		v, ok := g.vals[p]
+		if !ok {
+			return "", false
+		}
+		pp := param{p: p, term: v.T}
+		switch {
+		case basicKind(p.Type()) != "":
+			pp.kind = basicKind(p.Type())
+			terms = append(terms, v.T)
+		default:
+			t := p.Type()
+			isPtr := false
+			if pt, ok := t.Underlying().(*types.Pointer); ok {
+				t = pt.Elem()
+				isPtr = true
+			}
+			st, ok := structOf(t)
+			if !ok {
+				return "", false
+			}
+			sn := g.st.sortOf(t)
+			name := g.st.structName(t)
+			for i := 0; i < st.NumFields(); i++ {
+				f := st.Field(i)
+				k := basicKind(f.Type())
+				if k == "" {
+					continue
+				}
+				var term string
+				if isPtr {
+					h := "H0_" + sanitize(fieldKey(name, f.Name()))
+					if !g.declared[h] {
+						continue
+					}
+					term = app("select", h, v.T)
+				} else {
+					term = app(g.st.accessor(sn, i), v.T)
+				}
+				pp.fields = append(pp.fields, field{f.Name(), k, term})
+				terms = append(terms, term)
+			}
+			if isPtr {
+				pp.kind = "ptrstruct"
+			} else {
+				pp.kind = "struct"
+			}
+		}
+		params = append(params, pp)
+	}
+	vals, err := getValues(o.Script, terms, o.Solver)
+	if err != nil {
+		return "replay not attempted: " + err.Error(), false
+	}
+	// 2. build the test
+	var setup, binds, args []string
+	for i, pp := range params {
+		switch pp.kind {
+		case "int", "bool", "string":
+			lit, ok := smtToGo(vals[pp.term], pp.kind)
+			if !ok {
+				return "replay not attempted: model value not representable: " + vals[pp.term], false
+			}
+			if pp.kind == "int" {
+				lit = typeExpr(pp.p.Type(), pkg) + "(" + lit + ")"
+			}
+			args = append(args, lit)
+			binds = append(binds, eq(pp.term, vals[pp.term]))
+		case "struct", "ptrstruct":
+			t := pp.p.Type()
+			if pt, ok := t.Underlying().(*types.Pointer); ok {
+				t = pt.Elem()
+			}
+			vn := fmt.Sprintf("a%d", i)
+			if pp.kind == "ptrstruct" {
+				setup = append(setup, fmt.Sprintf("%s := &%s{}", vn, typeExpr(t, pkg)))
+			} else {
+				setup = append(setup, fmt.Sprintf("var %s %s", vn, typeExpr(t, pkg)))
+			}
+			for _, f := range pp.fields {
+				lit, ok := smtToGo(vals[f.term], f.kind)
+				if !ok {
+					return "replay not attempted: model value not representable: " + vals[f.term], false
+				}
+				setup = append(setup, fmt.Sprintf("%s.%s = %s", vn, f.name, lit))
+				binds = append(binds, eq(f.term, vals[f.term]))
+			}
+			setup = append(setup, "_ = "+vn)
+			args = append(args, vn)
+		}
+	}
+	sig := fn.Signature
+	call := fn.Name() + "("
+	if sig.Recv() != nil {
+		call = args[0] + "." + fn.Name() + "("
+		args = args[1:]
+	}
+	call += strings.Join(args, ", ") + ")"
+	var body strings.Builder
+	for _, s := range setup {
+		body.WriteString("\t" + s + "\n")
+	}
+	nres := sig.Results().Len()
+	type resField struct{ path, kind, expr string }
+	var resFields []resField
+	if nres > 0 {
+		var names []string
+		for i := 0; i < nres; i++ {
+			names = append(names, fmt.Sprintf("r%d", i))
+		}
+		body.WriteString("\t" + strings.Join(names, ", ") + " := " + call + "\n")
+		for i := 0; i < nres; i++ {
+			rt := sig.Results().At(i).Type()
+			switch {
+			case basicKind(rt) != "":
+				resFields = append(resFields, resField{fmt.Sprint(i), basicKind(rt), names[i]})
+			case types.IsInterface(rt):
+				resFields = append(resFields, resField{fmt.Sprint(i), "nilness", names[i]})
+			default:
+				if st, ok := structOf(rt); ok {
+					for j := 0; j < st.NumFields(); j++ {
+						if k := basicKind(st.Field(j).Type()); k != "" {
+							resFields = append(resFields, resField{fmt.Sprintf("%d.%d", i, j), k, names[i] + "." + st.Field(j).Name()})
+						}
+					}
+				} else {
+					body.WriteString("\t_ = " + names[i] + "\n")
+				}
+			}
+		}
+	} else {
+		body.WriteString("\t" + call + "\n")
+	}
+	for _, rf := range resFields {
+		switch rf.kind {
+		case "string":
+			fmt.Fprintf(&body, "\tfmt.Printf(\"VERIF-RESULT %s %%q\\n\", string(%s))\n", rf.path, rf.expr)
+		case "int":
+			fmt.Fprintf(&body, "\tfmt.Printf(\"VERIF-RESULT %s %%d\\n\", int64(%s))\n", rf.path, rf.expr)
+		case "bool":
+			fmt.Fprintf(&body, "\tfmt.Printf(\"VERIF-RESULT %s %%t\\n\", bool(%s))\n", rf.path, rf.expr)
+		case "nilness":
+			fmt.Fprintf(&body, "\tfmt.Printf(\"VERIF-RESULT %s %%t\\n\", %s == nil)\n", rf.path, rf.expr)
+		}
+	}
+	src := fmt.Sprintf(`package %s
+
+import (
+	"fmt"
+	"testing"
+)
+
+func TestVerifReplay(t *testing.T) {
+	defer func() {
+		if r := recover(); r != nil {
+			fmt.Printf("VERIF-PANIC %%v\n", r)
+		}
+	}()
+%s}
+`, pkg.Name(), body.String())
+	dir, err := os.MkdirTemp(scratchRoot(), "govc-replay-")
+	if err != nil {
+		return "", false
+	}
+	defer os.RemoveAll(dir)
+	rel := strings.TrimPrefix(pkg.Path(), repoMod+"/")
+	testPath := filepath.Join(dir, "replay_test.go")
+	os.WriteFile(testPath, []byte(src), 0o644)
+	ov := map[string]map[string]string{"Replace": {filepath.Join(repo, rel, "zz_verif_replay_test.go"): testPath}}
+	ovb, _ := json.Marshal(ov)
+	ovPath := filepath.Join(dir, "ov.json")
+	os.WriteFile(ovPath, ovb, 0o644)
+	cmd := exec.Command("go", "test", "-overlay", ovPath, "-vet=off", "-count=1", "-timeout", "60s", "-v", "-run", "^TestVerifReplay$", "./"+rel)
+	cmd.Dir = repo
+	cmd.Env = append(os.Environ(), "GOFLAGS=-mod=mod", "GOPROXY=off", "GOSUMDB=off", "GOTOOLCHAIN=local")
+	out, _ := cmd.CombinedOutput()
+	fmt.Fprintf(&log, "injected test (go test -overlay, package %s):\n%s\noutput:\n%s\n", rel, src, string(out))
+	// 3. judge
+	observed := map[string]string{}
+	panicked := false
+	for _, line := range strings.Split(string(out), "\n") {
+		if strings.HasPrefix(line, "VERIF-PANIC") {
+			panicked = true
+		}
+		if strings.HasPrefix(line, "VERIF-RESULT ") {
+			rest := line[len("VERIF-RESULT "):]
+			if i := strings.Index(rest, " "); i > 0 {
+				observed[rest[:i]] = rest[i+1:]
+			}
+		}
+	}
+	switch o.Kind {
+	case "index", "slice", "nil", "typeassert", "div", "panic", "makeslice":
+		if panicked {
+			log.WriteString("verdict: the real code panics on the solver's input -> reproduced\n")
+			return log.String(), true
+		}
+		log.WriteString("verdict: no panic observed on the solver's input -> not reproduced\n")
+		return log.String(), false
+	}
+	if o.Kind != "post" || g.ctr == nil {
+		return log.String(), false
+	}
+	if panicked {
+		log.WriteString("verdict: the real code panics on the solver's input (postcondition cannot hold) -> reproduced\n")
+		return log.String(), true
+	}
+	// evaluate the clause on concrete inputs and observed outputs
+	var clause *Clause
+	for _, en := range g.ctr.Ensures {
+		if en.Label == o.Label {
+			clause = en
+		}
+	}
+	if clause == nil {
+		return log.String(), false
+	}
+	env := g.specEnvAtEntry()
+	env.st = g.entry
+	var rs []Val
+	for i := 0; i < nres; i++ {
+		rt := sig.Results().At(i).Type()
+		s := g.st.sortOf(rt)
+		switch {
+		case basicKind(rt) != "":
+			p, ok := observed[fmt.Sprint(i)]
+			if !ok {
+				return log.String(), false
+			}
+			rs = append(rs, Val{T: goToSMT(basicKind(rt), p), Sort: s, Typ: rt})
+		case types.IsInterface(rt):
+			p := observed[fmt.Sprint(i)]
+			if p == "true" {
+				rs = append(rs, Val{T: "(mk_iface 0 0)", Sort: s, Typ: rt})
+			} else {
+				rs = append(rs, Val{T: "(mk_iface 1 1)", Sort: s, Typ: rt})
+			}
+		default:
+			st, ok := structOf(rt)
+			if !ok {
+				return log.String(), false
+			}
+			var fs []string
+			for j := 0; j < st.NumFields(); j++ {
+				k := basicKind(st.Field(j).Type())
+				p, ok := observed[fmt.Sprintf("%d.%d", i, j)]
+				if k == "" || !ok {
+					return log.String(), false
+				}
+				fs = append(fs, goToSMT(k, p))
+			}
+			rs = append(rs, Val{T: "(mk_" + s + " " + strings.Join(fs, " ") + ")", Sort: s, Typ: rt})
+		}
+	}
+	g.bindResults(env, sig, rs)
+	mark := len(g.cmds)
+	claim, err := g.evalBool(env, clause.E)
+	if err != nil {
+		return log.String(), false
+	}
+	var sb strings.Builder
+	sb.WriteString("(set-option :produce-models true)\n(set-logic ALL)\n" + g.st.prelude())
+	entryIdx := g.exitCovers()[0].cmdIdx
+	for _, c := range g.cmds[:entryIdx] {
+		sb.WriteString(c + "\n")
+	}
+	for _, c := range g.cmds[mark:] {
+		sb.WriteString(c + "\n")
+	}
+	g.cmds = g.cmds[:mark]
+	for _, b := range binds {
+		sb.WriteString("(assert " + b + ")\n")
+	}
+	sb.WriteString("(assert (not " + claim + "))\n(check-sat)\n")
+	judge := fixSidx(sb.String())
+	q := filepath.Join(dir, "judge.smt2")
+	os.WriteFile(q, []byte(judge), 0o644)
+	jout, _ := exec.Command("z3-new", "-t:20000", q).CombinedOutput()
+	verdict := strings.TrimSpace(firstLine(string(jout)))
+	fmt.Fprintf(&log, "clause %q evaluated on (model inputs, observed outputs): negation is %s\n", clause.Src, verdict)
+	if verdict == "sat" {
+		log.WriteString("verdict: the real code violates the clause on the solver's input -> reproduced\n")
+		return log.String(), true
+	}
+	log.WriteString("verdict: not reproduced on the real code\n")
+	return log.String(), false
 }
